@@ -1,3 +1,52 @@
 import Driver.Common
--- stub driver for C06 (replaced when the property's model is built)
-def main (args : List String) : IO UInt32 := Driver.main' (fun _ => "bad-op") (fun _ _ => "fail bad-op") args
+import GilVerif.Model.C06
+open Driver GilVerif.Model.C06
+
+def splitBar (ws : List String) : List String × List String :=
+  let a := ws.takeWhile (· ≠ "|"); (a, (ws.dropWhile (· ≠ "|")).drop 1)
+
+/-- `conv S D s0 [n step]` -/
+def parseOp (line : String) : Option (Ch × Ch × Int × Nat × Int) :=
+  match words line with
+  | ["conv", s, d, s0, n, step] =>
+    match Ch.parse s, Ch.parse d, ints [s0, n, step] with
+    | some S, some D, some [s0, n, step] => some (S, D, s0, n.toNat, step)
+    | _, _, _ => none
+  | ["conv", s, d, s0] =>
+    match Ch.parse s, Ch.parse d, ints [s0] with
+    | some S, some D, some [s0] => some (S, D, s0, 1, 1)
+    | _, _, _ => none
+  | _ => none
+
+def sources (s0 : Int) (n : Nat) (step : Int) : List Int :=
+  (List.range n).map (fun i => s0 + (Int.ofNat i) * step)
+
+def model (line : String) : String :=
+  match parseOp line with
+  | some (S, D, s0, n, step) =>
+    let rs := (sources s0 n step).map (conv S D)
+    showInts rs ++ " | " ++ showInts (rs.map (conv D S))
+  | none => "bad-op"
+
+def firstSome {α} (xs : List α) (f : α → Option String) : Option String :=
+  xs.foldl (fun acc x => match acc with | some e => some e | none => f x) none
+
+def judge (op obs : String) : String :=
+  let fail (s : String) := "fail " ++ s
+  match parseOp op with
+  | some (S, D, s0, n, step) =>
+    let (r, b) := splitBar (words obs)
+    match ints r, ints b with
+    | some r, some b =>
+      if r.length ≠ n ∨ b.length ≠ n then fail "shape" else
+      let xs := sources s0 n step
+      match firstSome (xs.zip r) (fun (s, v) => convSpec S D s v) with
+      | some e => fail e
+      | none =>
+        if step > 0 ∧ ¬ monotone r then fail "monotone"
+        else if roundTripApplies S D ∧ b ≠ xs then fail "round-trip"
+        else "ok"
+    | _, _ => fail ("not-a-value:" ++ (obs.take 40).toString)
+  | none => fail "bad-op"
+
+def main (args : List String) : IO UInt32 := Driver.main' model judge args
